@@ -1,6 +1,9 @@
 //! suite `build` (C01, C03, C05, C16, C18-ser): `serde_arrow::to_marrow(fields, rows)` on random nested schemas
 //! and records in every presentation; the case carries the implementation's arrays (physical dump), and
-//! arrow-rs' own validation of each array as an independent validity oracle.
+//! arrow-rs' own validation of each array as an independent validity oracle: key `arrow`, per marrow array
+//! `{"ok": len}` | `{"err": ..}` (validate_full refuses) | `{"conv_err": ..}` (marrow's conversion refuses) | `{"panic": true}`,
+//! judged for C03 by `marrowArrowC03` in lean/Driver/Suites/Build.lean (classes only, never the message text); key
+//! `backends`: the same rows through `to_arrow` / `to_record_batch` / `to_arrow2` (`backendC03`).
 use crate::dump;
 use crate::gen_schema::{self, ValCfg};
 use crate::outcome;
@@ -187,7 +190,8 @@ pub fn exec(input: &Value) -> Value {
         let arrays = serde_arrow::to_marrow(&fields, &Rows(rows))?;
         let dumped: Vec<Value> = arrays.iter().map(dump::array_to_json).collect();
         for a in arrays {
-            // independent validity oracle: arrow-rs validates when it takes the array over
+            // independent validity oracle (read by `marrowArrowC03`): marrow's conversion hands the array to arrow-rs,
+            // which then validates it in full
             let res = std::panic::catch_unwind(std::panic::AssertUnwindSafe(|| arrow_array::ArrayRef::try_from(a)));
             arrow_check.push(match res {
                 Ok(Ok(arr)) => match std::panic::catch_unwind(std::panic::AssertUnwindSafe(|| arr.to_data().validate_full())) {
